@@ -233,12 +233,34 @@ def _one_sided_builder_stores(run, prog):
                                     out.setdefault(txt, x)
                 return out
             unconditional = targets([st for st in fn.body if not isinstance(st, (ast.If, ast.For, ast.While, ast.Try))])
+            def blocks_(node):
+                for f_ in ('body', 'orelse', 'finalbody'):
+                    b_ = getattr(node, f_, None)
+                    if isinstance(b_, list) and b_ and isinstance(b_[0], ast.stmt):
+                        yield b_
+            rest_of = {}
+            for node_ in ast.walk(fn):
+                for b_ in blocks_(node_):
+                    for k_, st_ in enumerate(b_):
+                        if isinstance(st_, ast.If):
+                            rest_of[id(st_)] = b_[k_ + 1:]
+
+            def exits_(stmts):
+                return bool(stmts) and (always_exits(stmts) or isinstance(stmts[-1], (ast.Break, ast.Continue)))
+
+            def leaves_(stmts):
+                return bool(stmts) and always_exits(stmts) and not isinstance(stmts[-1], (ast.Break, ast.Continue))
             for iff in [x for x in ast.walk(fn) if isinstance(x, ast.If)]:
-                a, o = targets(iff.body), targets(iff.orelse)
-                for side, other, name_ in ((a, o, 'else'), (o, a, 'if')):
-                    other_stmts = iff.orelse if name_ == 'else' else iff.body
-                    if other_stmts and always_exits(other_stmts):
-                        continue
+                rest = rest_of.get(id(iff), [])
+                # 'if T: A; return' followed by B is 'if T: A else: B': each side is its arm plus, unless the arm ends the block, what follows
+                p1 = iff.body + ([] if exits_(iff.body) else rest)
+                p2 = iff.orelse + ([] if exits_(iff.orelse) else rest)
+                if not exits_(iff.body) and not exits_(iff.orelse):
+                    p1, p2 = iff.body, iff.orelse          # what follows is common to both sides
+                a, o = targets(p1), targets(p2)
+                for side, other, name_, other_stmts in ((a, o, 'else', p2), (o, a, 'if', p1)):
+                    if leaves_(other_stmts):
+                        continue                            # the other side returns from / raises out of the builder
                     for txt, st in side.items():
                         if txt in other or txt in unconditional:
                             continue
